@@ -3,6 +3,8 @@ package main
 // E1 (guard dominance) and value description over go/ssa.
 
 import (
+	"strconv"
+	"regexp"
 	"fmt"
 	"go/constant"
 	"go/token"
@@ -389,15 +391,7 @@ type SinkVerdict struct {
 }
 
 func (c *Ctx) mustPass(fn *ssa.Function, sinks []ssa.Instruction, match func(fact string) bool) []SinkVerdict {
-	facts := edgeFacts(fn)
-	cutSet := map[*ssa.BasicBlock][2]bool{}
-	for _, f := range facts {
-		if match(f.Fact) {
-			v := cutSet[f.From]
-			v[f.Succ] = true
-			cutSet[f.From] = v
-		}
-	}
+	cutSet := passEdges(fn, match, 2)
 	reach, parent := reachAvoiding(fn, func(from *ssa.BasicBlock, succ int) bool {
 		if succ > 1 {
 			return false
@@ -414,6 +408,146 @@ func (c *Ctx) mustPass(fn *ssa.Function, sinks []ssa.Instruction, match func(fac
 		}
 	}
 	return out
+}
+
+// passEdges: the If edges of fn on which a fact accepted by match is known to hold — either because the edge's own
+// condition says so, or because the condition tests the result of a same-package helper all of whose paths to the
+// corresponding kind of return pass such an edge (helper facts are translated into the caller's vocabulary by
+// substituting the helper's parameters with the call's arguments). depth bounds the helper nesting followed.
+func passEdges(fn *ssa.Function, match func(fact string) bool, depth int) map[*ssa.BasicBlock][2]bool {
+	cutSet := map[*ssa.BasicBlock][2]bool{}
+	for _, f := range edgeFacts(fn) {
+		if f.Succ < 2 && match(f.Fact) {
+			v := cutSet[f.From]
+			v[f.Succ] = true
+			cutSet[f.From] = v
+		}
+	}
+	if depth <= 0 {
+		return cutSet
+	}
+	for _, b := range fn.Blocks {
+		if len(b.Instrs) == 0 {
+			continue
+		}
+		iff, ok := b.Instrs[len(b.Instrs)-1].(*ssa.If)
+		if !ok {
+			continue
+		}
+		call, idx, kind, swapped := helperTest(iff.Cond)
+		if call == nil {
+			continue
+		}
+		h := call.Call.StaticCallee()
+		if h == nil || h.Pkg == nil || h.Pkg != fn.Pkg || len(h.Blocks) == 0 || h == fn {
+			continue
+		}
+		subst := func(fact string) string { return substParams(fact, call.Call.Args) }
+		hm := func(fact string) bool { return match(subst(fact)) }
+		for succ := 0; succ < 2; succ++ {
+			if cutSet[b][succ] {
+				continue
+			}
+			// which class of helper returns leads to this edge?
+			truthy := succ == 0
+			if swapped {
+				truthy = !truthy
+			}
+			var rets []*ssa.BasicBlock
+			for _, hb := range h.Blocks {
+				r, isR := hb.Instrs[len(hb.Instrs)-1].(*ssa.Return)
+				if !isR || idx >= len(r.Results) {
+					continue
+				}
+				rv := returnedValue(r, idx)
+				switch kind {
+				case "bool":
+					if k, isK := rv.(*ssa.Const); isK && k.Value != nil {
+						if (desc(k) == "true") != truthy {
+							continue
+						}
+					}
+				case "err":
+					// truthy edge of `x == nil`: returns that may be nil
+					nonNil := definitelyNonNilErr(rv, hb, 0)
+					if truthy && nonNil {
+						continue
+					}
+					if !truthy && isNilConst(rv) {
+						continue
+					}
+				}
+				rets = append(rets, hb)
+			}
+			if len(rets) == 0 {
+				continue
+			}
+			hcut := passEdges(h, hm, depth-1)
+			hreach, _ := reachAvoiding(h, func(from *ssa.BasicBlock, s int) bool { return s < 2 && hcut[from][s] })
+			all := true
+			for _, rb := range rets {
+				if hreach[rb] {
+					all = false
+				}
+			}
+			if all {
+				v := cutSet[b]
+				v[succ] = true
+				cutSet[b] = v
+			}
+		}
+	}
+	return cutSet
+}
+
+// helperTest recognises `if h(...)`, `if !h(...)`, `if ok` (ok = h(...)#k), `if err == nil` / `!= nil` (err = h(...)#k or h(...)).
+// kind is "bool" or "err"; swapped means the true edge corresponds to the false/non-nil class.
+func helperTest(cond ssa.Value) (call *ssa.Call, idx int, kind string, swapped bool) {
+	unwrap := func(v ssa.Value) (*ssa.Call, int) {
+		if ex, ok := v.(*ssa.Extract); ok {
+			if cl, ok := ex.Tuple.(*ssa.Call); ok {
+				return cl, ex.Index
+			}
+			return nil, 0
+		}
+		if cl, ok := v.(*ssa.Call); ok {
+			return cl, 0
+		}
+		return nil, 0
+	}
+	switch x := cond.(type) {
+	case *ssa.UnOp:
+		if x.Op == token.NOT {
+			c2, i2, k2, s2 := helperTest(x.X)
+			return c2, i2, k2, !s2
+		}
+	case *ssa.BinOp:
+		if (x.Op == token.EQL || x.Op == token.NEQ) && isNilConst(x.Y) {
+			if cl, i := unwrap(x.X); cl != nil {
+				return cl, i, "err", x.Op == token.NEQ
+			}
+		}
+		return nil, 0, "", false
+	}
+	if cl, i := unwrap(cond); cl != nil {
+		if b, ok := cond.Type().Underlying().(*types.Basic); ok && b.Kind() == types.Bool {
+			return cl, i, "bool", false
+		}
+	}
+	return nil, 0, "", false
+}
+
+var paramTokRe = regexp.MustCompile(`\bp(\d+)\b`)
+
+// substParams rewrites the helper's parameter tokens p<i> in a fact/desc string with the caller's argument descriptions.
+func substParams(s string, args []ssa.Value) string {
+	return paramTokRe.ReplaceAllStringFunc(s, func(tok string) string {
+		i, err := strconv.Atoi(tok[1:])
+		if err != nil || i >= len(args) {
+			return tok
+		}
+		return desc(args[i])
+	})
 }
 
 // factsMatching lists the distinct facts in fn accepted by match (for evidence/diagnostics).
